@@ -54,7 +54,22 @@ def _msgs(case):
     return [{"body": case["body"], "reads": case["reads"], "lens": case["lens"]}]
 
 
+_quiet = []
+
+
+def _quiet_logs():
+    """the server logs the failure of a message's eomReceived with log.err; keep it off stderr"""
+    if not _quiet:
+        from twisted.logger import globalLogBeginner
+        try:
+            globalLogBeginner.beginLoggingTo([lambda event: None], redirectStandardIO=False, discardBuffer=True)
+        except Exception:
+            pass
+        _quiet.append(True)
+
+
 def _run(msgs):
+    _quiet_logs()
     """-> (per message (wire, data-phase events) or None when the dialogue never reached DATA for it,
            command lines the server saw outside the DATA phases after the first DATA, sentMail calls)"""
     from twisted.internet import defer
@@ -280,7 +295,7 @@ def _oracle_msg(case, k, m, part):
     cmds = [x for x in evs if x.startswith("C:")]
     if cmds:
         return Failure(case, f"message {k + 1}: body content reached the command interpreter: "
-                             f"{[bytes.fromhex(c[2:]) for c in cmds][:3]}", "body-line-executed-as-command/" + where)
+                             f"{[bytes.fromhex(c[2:])[:40] for c in cmds][:3]}", "body-line-executed-as-command/" + where)
     ends = [x for x in evs if x == "EOM" or x.startswith("S:")]
     want, _ = _expected_events(m, exp)
     want_ends = [x for x in want if x == "EOM" or x.startswith("S:")]
